@@ -665,12 +665,7 @@ func compareRange(value, min, max Object) Object {
 }
 
 func evalBetweenOperand(exp Expression, env *Environment) Object {
-	identifier, ok := exp.(*Identifier)
-	if !ok {
-		return newError("identifier expected: got %q", exp.String())
-	}
-
-	val := evalIdentifier(identifier, env, true)
+	val := evalIdentifierOperand(exp, env)
 	if val.Type() == ObjectTypeError {
 		return val
 	}
@@ -683,6 +678,11 @@ func evalBetweenOperand(exp Expression, env *Environment) Object {
 }
 
 func evalIdentifierOperand(exp Expression, env *Environment) Object {
+	// an operand is an attribute, a value or a document path
+	if indexField, ok := exp.(*IndexExpression); ok {
+		return evalIndex(indexField, env)
+	}
+
 	identifier, ok := exp.(*Identifier)
 	if !ok {
 		return newError("identifier expected: got %q", exp.String())
